@@ -698,22 +698,75 @@ example :
 
 /-! ### derivatives, iteration, length -/
 
-/-- **derivs_same_selection.**  The object and each of its derivatives are indexed with the same
-    index: the result list is `getitem` mapped over them, an error in any is an error of the whole,
-    and all results share shape and source map whenever the selection does not depend on the mask
+/-- **derivs_same_selection.**  For an object with a leading shape, the object and each of its
+    derivatives are indexed with the same index: the result list is `getitem` mapped over them and
+    an error in any is an error of the whole; all results share shape and source map
     (`getitem_src_indep`). -/
-theorem derivs_same_selection (shape : Shape) (m : Mask) (ms : List Mask) (indx : List Entry) :
-    getitemObj shape (m :: ms) indx =
-      match getitem shape m indx, getitemObj shape ms indx with
+theorem derivs_same_selection (n : Nat) (rest : Shape) (m : Mask) (ms : List Mask) (indx : List Entry) :
+    getitemObj (n :: rest) (m :: ms) indx =
+      match getitem (n :: rest) m indx, getitemShapedObj (n :: rest) ms indx with
       | some r, some rs => some (r :: rs)
       | _, _ => none := by
-  simp only [getitemObj, List.mapM_cons]
-  cases getitem shape m indx with
+  simp only [getitemObj, getitemShapedObj, List.mapM_cons]
+  cases getitem (n :: rest) m indx with
   | none => rfl
   | some r =>
-    cases List.mapM (fun m => getitem shape m indx) ms with
+    cases List.mapM (fun m => getitem (n :: rest) m indx) ms with
     | none => rfl
     | some rs => rfl
+
+/-- FULL (what the property demands of a shapeless object as well): every derivative of the result is
+    masked iff the derivative is masked or the Boolean in the index is masked.
+
+    **derivs_shapeless_partial.**  For a shapeless object this holds unless the object itself is
+    already masked: the result's main part is that of `getitemScalar`, and when the object is not
+    masked (or the index has no masked Boolean) each derivative's single element is masked iff the
+    derivative is masked or the index is. -/
+theorem derivs_shapeless_partial (mask : Bool) (dmasks : List Bool) (indx : List Entry) (rs : List Result)
+    (h : getitemScalarObj mask dmasks indx = some rs) :
+    (∃ r0 tl, rs = r0 :: tl ∧ getitemScalar mask indx = some r0 ∧ tl.length = dmasks.length) ∧
+    ((mask = false ∨ scalarMasked indx = false) →
+      rs.tail.map (fun r => (r.shape, r.mask.bit [])) =
+        dmasks.map (fun d => (scalarDims indx, d || scalarMasked indx)) ∨ (0 ∈ scalarDims indx)) := by
+  have hinv : ({} : SState).Inv := ⟨fun _ => rfl, fun h => by simp at h, fun _ => rfl⟩
+  obtain ⟨_, h2⟩ := scalarLoop_spec indx {} hinv
+  unfold getitemScalarObj at h
+  cases hl : scalarLoop {} indx with
+  | none => simp [hl] at h
+  | some s =>
+    obtain ⟨_, ⟨_, i2, _⟩, c, d⟩ := h2 s hl
+    simp only [hl, Option.some.injEq] at h
+    subst h
+    have hd : s.masked = scalarMasked indx := by simpa using d
+    have hc : s.before ++ s.after = scalarDims indx := by simpa using c
+    refine ⟨⟨_, _, rfl, by simp [getitemScalar, hl], by simp⟩, ?_⟩
+    intro hm
+    simp only [List.tail_cons, List.map_map, hc]
+    cases hz : s.sizeZero with
+    | true =>
+      -- a `False` in the index: the result has an axis of length 0
+      left
+      rw [List.map_inj_left]
+      intro dd _
+      have : s.masked = false := by
+        cases hmm : s.masked with
+        | false => rfl
+        | true => have := i2 hmm; simp [hz] at this
+      simp [Function.comp, Mask.bit, this ▸ hd ▸ rfl, ← hd, this]
+    | false =>
+      left
+      rw [List.map_inj_left]
+      intro dd _
+      rcases hm with hm | hm
+      · subst hm; cases hs : s.masked <;> simp [Function.comp, Mask.bit, ← hd, hs]
+      · have : s.masked = false := by rw [hd]; exact hm
+        simp [Function.comp, Mask.bit, ← hd, this]
+
+/-- KF-C09-2: an already masked shapeless object indexed by a masked Boolean hands back its
+    derivative UNMASKED (the faithful model, as the code) -/
+theorem derivs_shapeless_counterexample :
+    (getitemObj [] [.all true, .all false] [.bool true true]).map (fun rs => rs.map (·.mask.bit [])) =
+      some [true, false] := by rfl
 
 /-- the selection (result shape) of `getitemShaped` does not depend on the object's mask: an object
     and its derivatives get results of one shape, read through one source map -/
